@@ -333,6 +333,10 @@ def pair_features(ctx, view: RegionView, file_bio, log: Log):
             log.violate("feature-missing-or-moved",
                         dict(feature_type=key[0], parent_location=str(parent.location),
                              feature_side=geo.side(parent.location), multipart=len(parent.location.parts) > 1,
+                             # parts on either side of the stretch the region leaves out, without going over the origin
+                             feature_straddles_the_stretch_outside_the_region=bool(
+                                 geo.crosses and geo.side(parent.location) == "crossing"
+                                 and not X.spans_origin(parent.location)),
                              same_type_in_file=[str(f.location) for f in file_bio.features if f.type == key[0]][:6]))
         elif len(have) > len(exp):
             extra = have[0]
@@ -940,6 +944,23 @@ def _c12_parent_qualifiers(clause, facts):
     allowed = {"qualifier:" + q for q in ADJUSTED}
     return facts.get("changed_features_cross_origin") is True and set(facts.get("changed", ["?"])) <= allowed \
         and set(facts.get("changed_feature_types", ["?"])) <= AREA_TYPES | {"CDS_motif"}
+
+
+@findings.classifier("c12_feature_across_the_seam_left_out")
+def _c12_across_the_seam(clause, facts):
+    """ an origin-spanning region that leaves out only a short stretch of the record holds, part by part, a feature
+        whose gap (an intron) contains that stretch: the feature is one of the region's, yet its parts lie at the two
+        ends of the linear extract in the wrong order and it is not written. Must not hide: a missing feature of one
+        part, one that goes over the origin, one with all parts on one side, or anything in other regions. """
+    if clause.startswith("reload-content:"):
+        # the reloaded file then lacks that gene and what sits on it, and nothing else: every deviation of the file
+        # was of this kind, and the areas and the extent of the region are as they were
+        return (clause.split(":", 1)[1] in ("genes", "gene-details", "prepeptides", "motifs", "domains")
+                and facts.get("file_level_failures") == ["feature-missing-or-moved"]
+                and facts.get("file_level_failures_all_known") is True and facts.get("region_spans_origin") is True
+                and facts.get("reloaded_region_extent_differs") is not True)
+    return (clause == "feature-missing-or-moved" and facts.get("region_spans_origin") is True
+            and facts.get("multipart") is True and facts.get("feature_straddles_the_stretch_outside_the_region") is True)
 
 
 @findings.classifier("c12_consequence_of_known_file_deviation")
